@@ -39,7 +39,9 @@ def fake_triplets(rows, j):
     h = sum(len(c) for r in rows for c in r) + 7 * len(rows)
     first = rows[0][0] if rows and rows[0] else ''
     return [('f1', 'label', float((h + j) % 11)), ('label', 'f1', float((h + j) % 11)), ('f2', 'label', float(len(first) + j)),
-            ('f1', 'label', float(j))]
+            ('f1', 'label', float(j)),
+            # identical scores in several batches (the median is over batches, not over distinct values) and self pairs listed twice
+            ('f2', 'f1', float(j // 2)), ('f1', 'f2', 1.0 if j != 1 else 5.0), ('f2', 'f2', 2.0), ('f2', 'f2', 2.0 if j % 3 else 9.0)]
 
 
 def main():
